@@ -129,26 +129,39 @@ def samples(h, pts, rng, ns=(1, 2, 3, 5)):
     S = {}
     std = Basis(h, pts)
     M = make_merchant(h, pts, rng)
+    # the honest flows that produce the protocol-level samples; if the implementation stops one of them early (which the model
+    # says cannot happen) the samples obtained so far are still used - so that the round-trip monitors can point at the value
+    # that fails - and the stop is reported by the caller as a correspondence failure (S["_stopped"])
     est = full_establish(h, M, rng, rng.randbytes(32), rng.randrange(10, 2 ** 40), rng.randrange(10, 2 ** 40), b"wire")
-    pay = pay_once(h, M, rng, est["ready"], 3, b"wire")
-    h.rng(5)
-    t = h.call("ready_start", pay["ready"], 1, "-", M.cconfig)
-    started2 = t[1]
-    S["Requested"], S["EstablishProof"] = est["e"]["req_hex"], est["e"]["proof_hex"]
-    S["Inactive"], S["Ready"], S["Started"], S["Locked"] = est["inactive"], est["ready"], pay["started"], pay["locked"]
-    S["PayProof"], S["Nonce"], S["RevocationPair"] = pay["proof_hex"], pay["nonce"], pay["pair"]
-    S["RevocationLockBlindingFactor"] = pay["revbf"]
-    S["PayToken"], S["ClosingSignature"] = pay["token"], pay["closing"]
-    h.rng(6)
-    cm = h.call("close", "ready", pay["ready"])[0]
-    S["ClosingMessage"] = cm
-    S["CloseStateSignature"], S["CloseState"] = cm[:192], cm[192:]
-    S["RevocationLock"], S["RevocationSecret"] = pay["pair"][:64], pay["pair"][64:]
-    pp = parse_pproof(pay["proof_hex"])
-    S["RevocationLockCommitment"] = pp["rev"]["C"]
+    pay = pay_once(h, M, rng, est["ready"], 3, b"wire") if est.get("ok") else Flow({"ok": False, "stage": "establish:" + str(est.get("stage"))})
+    if not (est.get("ok") and pay.get("ok")):
+        S["_stopped"] = "establish: %s" % est.get("stage") if not est.get("ok") else "payment: %s" % pay.get("stage")
+
+    def put(name, value):
+        if value is not None:
+            S[name] = value
+    e0 = est.get("e") or {}
+    put("Requested", e0.get("req_hex")); put("EstablishProof", e0.get("proof_hex"))
+    put("Inactive", est.get("inactive")); put("Ready", est.get("ready"))
+    put("Started", pay.get("started")); put("Locked", pay.get("locked"))
+    put("PayProof", pay.get("proof_hex")); put("Nonce", pay.get("nonce")); put("RevocationPair", pay.get("pair"))
+    put("RevocationLockBlindingFactor", pay.get("revbf"))
+    put("PayToken", pay.get("token") or est.get("token")); put("ClosingSignature", pay.get("closing") or (est.get("mi") or {}).get("closing"))
+    last_ready = pay.get("ready") or est.get("ready")
+    if last_ready:
+        h.rng(6)
+        cm = h.try_call("close", "ready", last_ready)
+        if cm:
+            S["ClosingMessage"] = cm[0]
+            S["CloseStateSignature"], S["CloseState"] = cm[0][:192], cm[0][192:]
+    if pay.get("pair"):
+        S["RevocationLock"], S["RevocationSecret"] = pay["pair"][:64], pay["pair"][64:]
+    if pay.get("proof_hex"):
+        pp = parse_pproof(pay["proof_hex"])
+        S["RevocationLockCommitment"] = pp["rev"]["C"]
+        S["RangeConstraint"] = pay["proof_hex"][-2 * 6480:-6480]
     S["CustomerConfig"] = M.cconfig
     S["RangeConstraintParameters"] = M.rp["hex"]
-    S["RangeConstraint"] = pay["proof_hex"][-2 * 6480:-6480]
     S["ChannelId"] = rng.randbytes(32).hex()
     S["CustomerRandomness"] = h.call("rand_new", "c")[0]
     S["MerchantRandomness"] = h.call("rand_new", "m")[0]
